@@ -95,7 +95,7 @@ class Chan(object):
         if a is not None and a <= now:
             return True
         tl = timeout.timeleft()
-        if tl is None:
+        if tl is None or tl < 0:          # a real poll() with a negative timeout blocks like one without
             if a is None:
                 raise Hang()
             self.clock.tick = a
@@ -328,7 +328,7 @@ def canon_obs(o):
     return [int(x) if isinstance(x, bool) else x for x in o]
 
 
-def impl_run(case, report=None):
+def impl_run(case, report=None, note=None):
     """returns (trace, final) in the model's shape; evaluates the oracle when report is given"""
     r = Run(case)
     try:
@@ -365,8 +365,8 @@ def impl_run(case, report=None):
                 continue
             where = "action %d %s" % (i, ACT_NAMES[k])
             if k == 2:
-                if before == "expired":
-                    r.rearmed = True
+                if before == "expired" and note:
+                    note("set_expiry-after-expiry" + (":revives" if not (finite_of(p) and p == 0) else ""))
                 orc.arm(p)
             new = orc.absorb_dispatches()
             after = orc.expected()
@@ -568,10 +568,14 @@ def nontrivial(case):
 def check_cases(ctx, model, cases):
     outs = model.batch([case_sx(c) for c in cases]) if model else None
     for i, case in enumerate(cases):
-        def report(sig, what, observed, expected, where, case=case):
-            ctx.violation(sig, case, observed=observed, expected=expected, what="%s (%s)" % (what, where))
+        seen = []
+
+        def report(sig, what, observed, expected, where, case=case, seen=seen):
+            if not seen:          # the first failure of a history is the cause; what follows in the same history is consequence
+                seen.append(sig)
+                ctx.violation(sig, case, observed=observed, expected=expected, what="%s (%s)" % (what, where))
         try:
-            trace, fin = impl_run(case, report)
+            trace, fin = impl_run(case, report, ctx.count)
         except Exception as e:   # the implementation must not fail in any other way on these histories
             ctx.violation("unexpected-exception:" + type(e).__name__, case, observed=repr(e), expected="an observation",
                           what="the implementation raised something the property does not allow")
